@@ -19,15 +19,15 @@ from . import signing
 ID = "C03"
 RULE = ("E = create(d) for generated d (same generator as C02); variants: E as created, E severed by "
         "SuitEnvelope.sever(), E with a random subset of severable/string members removed, E signed through "
-        "ncs/sign_script.py with a real key, E after payload_extract; each parsed through SuitEnvelope.load/dump, "
+        "ncs/sign_script.py with a real key, E after payload_extract (removed, or replaced by an empty / other payload); each parsed through SuitEnvelope.load/dump, "
         "cmd_parse.main or the CLI to a YAML or JSON file with/without --parse-hierarchy, re-created from that file. "
         "distinct = digest of (E, variant, format, hierarchy); non-trivial = E has a dependency, a severed member, an "
         "authentication block or >= 3 command/parameter names")
 MIN_DISTINCT = {"quick": 500, "thorough": 5000}
 ASSUMPTIONS = ["reference encoder as in C02 (used in the tool's CWT-payload form, F7b is C02's finding)",
                "PyYAML / json are trusted for reading the files written by parse"]
-N = {"quick": 12000, "thorough": 300000}
-CAP = {"quick": 42, "thorough": 800}
+N = {"quick": 8000, "thorough": 300000}
+CAP = {"quick": 34, "thorough": 800}
 KNOWN_F6NIL = "ciphertext-f6-read-as-nil"
 
 
@@ -182,17 +182,23 @@ def variant(rec, r, E, desc, workdir):
     dst = drive.fresh(workdir, ".suit")
     with open(src, "wb") as fh:
         fh.write(E)
+    rp = None
     try:
-        cmd_payload_extract.main(src, dst, name, None, None)
+        if r.random() < 0.5:
+            # replacement by another payload (often the empty placeholder a build system puts there)
+            rp = drive.fresh(workdir, ".bin")
+            with open(rp, "wb") as fh:
+                fh.write(b"" if r.random() < 0.5 else r.randbytes(r.choice([1, 24, 300])))
+        cmd_payload_extract.main(src, dst, name, None, rp)
         with open(dst, "rb") as fh:
-            return "payload-extracted", fh.read()
+            return ("payload-replaced" if rp else "payload-extracted"), fh.read()
     except Exception as ex:  # noqa
         rec.violation("extract-refused", f"payload_extract failed on a created envelope: {common.exc_text(ex)}",
                       {"desc": desc, "name": name})
         return None
     finally:
-        for p in (src, dst):
-            if os.path.exists(p):
+        for p in (src, dst, rp):
+            if p and os.path.exists(p):
                 os.unlink(p)
 
 
@@ -287,7 +293,7 @@ def replay(rec, case):
 def finish(merged, tier, seed):
     cnt = merged["counters"]
     need = ["variant:created", "variant:sever()", "variant:members-removed", "variant:signed",
-            "variant:payload-extracted", "hierarchy-expanded-with-dependencies"]
+            "variant:payload-extracted", "variant:payload-replaced", "hierarchy-expanded-with-dependencies"]
     if cnt.get("shown-description-unknown-to-reference", 0) > 0.05 * max(1, cnt.get("cases_run", 1)):
         merged["inconclusive"].append("more than 5 % of the shown descriptions could not be interpreted by the reference "
                                       "encoder: the second clause of the property was not decided")
